@@ -246,9 +246,10 @@ def _expand_closures(fn: ast.AST, skip_known: tuple[str, set[str]] | None = None
             continue
         if skip_known is not None and f'{skip_known[0]}.<locals>.{st.name}' in skip_known[1]:
             continue        # a nested function the inventory knows
-        body = list(st.body)
+        body = [copy.deepcopy(x) for x in st.body]
         if body and isinstance(body[0], ast.Expr) and isinstance(body[0].value, ast.Constant):
             body = body[1:]
+        _inline_adjacent_temps(body, set())       # explaining temporaries of the closure itself
         if body and not any(isinstance(n, (ast.Return, ast.Yield, ast.YieldFrom, ast.Await, ast.Nonlocal, ast.Global, ast.FunctionDef, ast.Lambda)) for x in body for n in ast.walk(x)):
             # a procedure: every use is the statement `name()`
             uses = [n for n in ast.walk(fn) if isinstance(n, ast.Name) and n.id == st.name]
@@ -808,6 +809,35 @@ def expand(prog: 'object') -> list[str]:
                                         log.append(f'{caller.short}: expanded statement call of new helper {h.short}')
                                         changed = True
                                         done = True
+                                elif not single and target is not None and not _tail_returns_only(body):
+                                    # --- L shape: a search loop over a table that is a parameter (`for k, v in table: if key == k:
+                                    # return v` ... `raise`): with the argument in place the table is a constant, the loop unrolls
+                                    # and every return becomes a tail return
+                                    counter += 1
+                                    inst = instantiate(caller, h, call, is_m, recv, counter, target)
+                                    if inst is not None:
+                                        pre, nb = inst
+                                        from kfv import normalize as _nz
+                                        consts_ = {}
+                                        for mod_ in {h.module, caller.module}:
+                                            consts_.update(_nz._module_consts(prog.modules[mod_].tree))      # type: ignore[attr-defined]
+                                        tmpf = ast.FunctionDef(name='_kfv_tmp', args=ast.arguments(posonlyargs=[], args=[], kwonlyargs=[], kw_defaults=[], defaults=[]),
+                                                               body=nb, decorator_list=[], returns=None, type_comment=None, lineno=st.lineno, col_offset=0)
+                                        lg_: list[str] = []
+                                        try:
+                                            _nz._unroll(tmpf, consts_, lg_)
+                                        except Exception:  # noqa: BLE001
+                                            lg_ = []
+                                        nb2 = _renest(tmpf.body)
+                                        if lg_ and _tail_returns_only(nb2) and not (target is None and _has_return_value(nb2)):
+                                            nb2 = _rewrite_returns(nb2, target)
+                                            blk[i:i + 1] = pre + nb2
+                                            for x_ in pre + nb2:
+                                                ast.fix_missing_locations(x_)
+                                            touched[caller.qualname] = caller
+                                            log.append(f'{caller.short}: expanded table search of new helper {h.short} (loop over the constant table unrolled)')
+                                            changed = True
+                                            done = True
                         if not done:
                             # --- E shape anywhere inside the statement (not inside nested defs)
                             here = False
